@@ -1,4 +1,4 @@
-From Coq Require Import ZArith QArith Qround Qabs Qminmax List Bool Lia Lra Psatz.
+From Coq Require Import ZArith QArith Qround Qabs Qminmax List Bool Lia Lqa.
 From Elex Require Import Base.QRound Model.Compare Model.Versioned.
 Import ListNotations.
 Open Scope Q_scope.
